@@ -117,3 +117,123 @@ Definition policy (w : world) (o : opts) (st : state) (n : str) (kw : kwargs) : 
         end
     end
   end.
+
+(* ------------------------------------------------------------------ several names *)
+(* dependency('a', 'b', ...): "the names are tried in order and the first found is used; the
+   fallback subproject is used only if none of the names is found on the system; once one name
+   has been found all names answer with it" (docs/yaml/functions/dependency.yaml, varargs). *)
+
+(* the first name, in order, that somebody has overridden *)
+Fixpoint first_override (st : state) (names : list str) : option dep :=
+  match names with
+  | [] => None
+  | n :: r => match assoc n (s_over st) with
+              | Some (d, _) => Some d
+              | None => first_override st r
+              end
+  end.
+
+(* the first name, in order, that the system has in a matching version *)
+Fixpoint first_system (w : world) (names : list str) (wanted : list str) : option dep :=
+  match names with
+  | [] => None
+  | n :: r => match system_dep w n wanted with
+              | Some d => Some d
+              | None => first_system w r wanted
+              end
+  end.
+
+(* the first name, in order, that a wrap provides decides the implicit fallback *)
+Fixpoint provider_of (w : world) (names : list str) : option (str * option str) :=
+  match names with
+  | [] => None
+  | n :: r => match find_dep_provider w n with
+              | Some (c :: s, var) => Some (c :: s, var)
+              | _ => provider_of w r
+              end
+  end.
+
+Definition forcedN (o : opts) (names : list str) (s : str) : bool :=
+  is_forcefallback (o_wrap_mode o) || existsb (fun n => str_mem n (o_fff o)) names || str_mem s (o_fff o).
+
+Definition fallback_ofN (w : world) (o : opts) (st : state) (names : list str) (kw : kwargs) : fbspec :=
+  match k_fallback kw with
+  | Some l =>
+      if is_some (k_allow kw) then FbInvalid
+      else match l with
+           | [] => FbNone
+           | [s] => FbSub s None
+           | [s; v] => FbSub s (Some v)
+           | _ => FbInvalid
+           end
+  | None =>
+      match k_allow kw with
+      | Some false => FbNone
+      | a =>
+          match provider_of w names with
+          | Some (s, var) =>
+              if forcedN o names s || (match a with Some true => true | _ => false end)
+                 || k_required kw || get_subproject st s
+              then FbSub s var else FbNone
+          | None => FbNone
+          end
+      end
+  end.
+
+(* the variable a configured subproject offers when nobody overrode any of the names *)
+Definition var_offer (w : world) (s : str) (var : option str) (names : list str) : dep :=
+  let var := if truthy var then var else first_varname w s names in
+  match var with
+  | Some (c :: vn) =>
+      match assoc s (w_subs w) with
+      | Some sd => match assoc (c :: vn) (sd_vars sd) with Some (VDep d) => d | _ => NotFound end
+      | None => NotFound
+      end
+  | _ => NotFound
+  end.
+
+Definition sub_offerN (w : world) (st : state) (s : str) (var : option str) (names : list str) : dep :=
+  match first_override st names with
+  | Some d => d
+  | None => var_offer w s var names
+  end.
+
+Definition use_subprojectN (w : world) (st : state) (s : str) (var : option str) (names : list str)
+           (wanted : list str) (required : bool) : outcome :=
+  match do_subproject w st s required with
+  | Err => OErr
+  | Ok st' => if get_subproject st' s then vet wanted required (sub_offerN w st' s var names)
+              else fail required
+  end.
+
+Definition policyN (w : world) (o : opts) (st : state) (names0 : list str) (kw : kwargs) : outcome :=
+  let names := filter (fun n => negb (is_nil n)) names0 in      (* '' is "no name" *)
+  let required := k_required kw in
+  let wanted := k_version kw in
+  if negb (names_ok [] names) then OErr else                     (* <, >, = in a name; a duplicate *)
+  match fallback_ofN w o st names kw with
+  | FbInvalid => OErr
+  | fb =>
+    match first_override st names with
+    | Some d => vet wanted required d                            (* 1. an overridden name wins *)
+    | None =>
+        match fb with
+        | FbSub s var =>
+            if get_subproject st s
+            then vet wanted required (var_offer w s var names)   (* 2. fallback subproject already configured *)
+            else if forcedN o names s
+            then use_subprojectN w st s var names wanted required    (* 3. forced *)
+            else match first_system w names wanted with
+                 | Some d => OFound d                            (* 4. the first name the system has *)
+                 | None =>
+                     if is_nofallback (o_wrap_mode o) then fail required
+                     else use_subprojectN w st s var names wanted required   (* 6. configure the fallback *)
+                 end
+        | _ =>
+            match first_system w names wanted with
+            | Some d => OFound d
+            | None => fail required
+            end
+        end
+    end
+  end.
